@@ -182,6 +182,12 @@ pub fn items(tier: Tier) -> Vec<Item> {
         }
         add("transparent-arity", d, format!("control: {} transparent on tuple1", d), en(d, "", "", &place("#[strum(transparent)] X(&'static str)", 1)), true);
     }
+    // R7': transparent together with to_string is still transparent (arity rule applies)
+    for d in ["Display", "AsRefStr", "IntoStaticStr"] {
+        for kind in ["X", "X(u8, u8)", "X {}"] {
+            add("transparent-arity", d, format!("{}: transparent + to_string on `{}`", d, kind), en(d, "", "", &place(&format!("#[strum(transparent, to_string = \"t\")] {}", kind), 1)), false);
+        }
+    }
     // R8 placeholders on a unit variant
     for l in ["a {x}", "{0}", "{}", "{x:>4}", "{{}} {y}"] {
         for pos in positions(th) {
